@@ -1,0 +1,64 @@
+//go:build verif
+
+package typematch
+
+import (
+	"fmt"
+	"go/types"
+	"strings"
+)
+
+// VerifDump renders the parsed pattern tree as a term of the verification model
+// (constructor per patternOp); ser renders the Go type stored in an opBuiltinType node.
+func (p *Pattern) VerifDump(ser func(types.Type) string) string {
+	return verifDump(p.root, ser)
+}
+
+func verifDumpList(subs []*pattern, ser func(types.Type) string) string {
+	parts := make([]string, len(subs))
+	for i, s := range subs {
+		parts[i] = verifDump(s, ser)
+	}
+	return "[" + strings.Join(parts, "; ") + "]"
+}
+
+func verifDump(pat *pattern, ser func(types.Type) string) string {
+	switch pat.op {
+	case opBuiltinType:
+		return "PBuiltin (" + ser(pat.value.(types.Type)) + ")"
+	case opPointer:
+		return "PPointer (" + verifDump(pat.subs[0], ser) + ")"
+	case opVar:
+		return fmt.Sprintf("PVar %q", pat.value.(string))
+	case opVarSeq:
+		return "PVarSeq"
+	case opSlice:
+		return "PSlice (" + verifDump(pat.subs[0], ser) + ")"
+	case opArray:
+		switch v := pat.value.(type) {
+		case string:
+			return fmt.Sprintf("PArrayVar %q (%s)", v, verifDump(pat.subs[0], ser))
+		case int64:
+			return fmt.Sprintf("PArrayN (%d) (%s)", v, verifDump(pat.subs[0], ser))
+		}
+		return "?array"
+	case opMap:
+		return "PMap (" + verifDump(pat.subs[0], ser) + ") (" + verifDump(pat.subs[1], ser) + ")"
+	case opChan:
+		return fmt.Sprintf("PChan %d (%s)", int(pat.value.(types.ChanDir)), verifDump(pat.subs[0], ser))
+	case opFuncNoSeq, opFunc:
+		n := pat.value.(int)
+		return "PFunc " + verifDumpList(pat.subs[:n], ser) + " " + verifDumpList(pat.subs[n:], ser)
+	case opStructNoSeq, opStruct:
+		return "PStruct " + verifDumpList(pat.subs, ser)
+	case opAnyInterface:
+		return "PAnyInterface"
+	case opNamed:
+		v := pat.value.([2]string)
+		return fmt.Sprintf("PNamed %q %q", v[0], v[1])
+	}
+	return fmt.Sprintf("?op%d", int(pat.op))
+}
+
+// VerifOp returns the name of the root operation (patternOp stringer).
+func (p *Pattern) VerifOp() string { return p.root.op.String() }
